@@ -57,14 +57,18 @@ func guardDocs() []document.Document {
 		return out
 	}
 
-	return []document.Document{mk(false), mk(true)}
+	// a document without keys (what is read as "the keys" must not come from anywhere else)
+	keyless := mk(false)
+	delete(keyless, "publicKey")
+
+	return []document.Document{mk(false), mk(true), keyless}
 }
 
 // the value an add / replace / test carries: chosen per destination so that the operation has
 // the best chance to apply
 func guardValue(doc document.Document, o gOp) interface{} {
 	switch o.Path {
-	case "/publicKey", "/service", "/publicKeyX", "/services":
+	case "/publicKey", "/service", "/publicKeyX", "/services", "/verificationMethod":
 		return []interface{}{map[string]interface{}{"id": "evil"}}
 	case "/publicKey/0", "/publicKey/-", "/service/0":
 		return map[string]interface{}{"id": "evil", "type": "JsonWebKey2020"}
@@ -180,8 +184,10 @@ func guardReplay(args []string) {
 
 			applied++
 
-			pkAltered := digestJSON(out["publicKey"]) != pkBefore
-			svcAltered := digestJSON(out["service"]) != svcBefore
+			// the raw members, and what the library's own accessors read as the keys / services of the document
+			rawPK, rawSvc := digestJSON(out["publicKey"]) != pkBefore, digestJSON(out["service"]) != svcBefore
+			pkAltered := rawPK || guardView(out, true) != guardView(doc, true)
+			svcAltered := rawSvc || guardView(out, false) != guardView(doc, false)
 
 			if !pkAltered && !svcAltered {
 				continue
@@ -191,7 +197,7 @@ func guardReplay(args []string) {
 				alteredUnvalidated++ // what validation is there to stop
 
 				// binding of the model: the real effect must be one the model says is possible
-				if (pkAltered && !c.MayAlterPK) || (svcAltered && !c.MayAlterSvc) {
+				if (rawPK && !c.MayAlterPK) || (rawSvc && !c.MayAlterSvc) {
 					modelWrong++
 					col.report(mismatch{Kind: "model-binding", Key: guardKey("model-binding", c.Ops), Case: c,
 						Detail:   "the real library altered a protected member where the model says no operation of the list writes there",
@@ -219,4 +225,14 @@ func guardReplay(args []string) {
 	col.sum.Extra["altering_lists_stopped_by_validation"] = alteredUnvalidated
 	col.sum.Extra["documents"] = len(docs)
 	col.finish()
+}
+
+// guardView: the keys (services) of a document as the library reads them.
+func guardView(d document.Document, keys bool) string {
+	dd := document.DidDocumentFromJSONLDObject(d.JSONLdObject())
+	if keys {
+		return digestJSON(dd.PublicKeys())
+	}
+
+	return digestJSON(dd.Services())
 }
